@@ -56,6 +56,7 @@ func probes() []vk.Probe {
 	}
 	ps = append(ps, clientProbes()...)
 	ps = append(ps, diskProbes()...)
+	ps = append(ps, rowProbes()...)
 	if os.Getenv("C16_PROBE_TIMES") != "" {
 		for i := range ps {
 			p := ps[i]
